@@ -87,9 +87,10 @@ def gen_jobshop(rng):
     nj = rng.randint(1, 4)
     nm = rng.randint(1, 3)
     jobs = []
+    ids = list(range(nm + 1)) if rng.random() < 0.7 else sorted(rng.sample(range(12), nm + 1))     # any machine indices: gaps too
     for _ in range(nj):
         k = rng.randint(1, 4)
-        jobs.append([[rng.randrange(nm + (1 if rng.random() < 0.2 else 0)), rng.choice([0, 1, 1, 2, 3, 5])] for _ in range(k)])
+        jobs.append([[ids[rng.randrange(nm + (1 if rng.random() < 0.2 else 0))], rng.choice([0, 1, 1, 2, 3, 5])] for _ in range(k)])
     configs = []
     for rule in ("spt", "lpt", "fifo", "mwkr", "random"):
         configs.append({"rule": rule, "local_search": False, "seed": rng.randint(0, 999)})
@@ -105,7 +106,7 @@ def gen_vrp_tight(rng, mode="solve"):
         tws = rng.choice([0, 0, rng.randint(0, 10)])
         customers.append([rng.randint(-10, 10), rng.randint(1, 4), tws, None if rng.random() < 0.5 else tws + rng.randint(5, 40), rng.randint(0, 2),
                           2 if rng.random() < 0.7 else 1])
-    veh = rng.randint(2, 3)
+    veh = rng.choice([2, 2, 3, 3, 4])
     total = sum(c[1] * c[5] for c in customers)
     cap = max(4, int(total / veh * rng.choice([0.6, 0.8, 1.0, 1.3])))
     case = {"customers": customers, "vehicles": veh, "capacity": cap, "seed": rng.randint(0, 10 ** 6), "mode": mode, "max_iter": rng.choice([0, 1, 150, 150, 150])}
@@ -128,7 +129,7 @@ def gen_vrp(rng, mode="solve"):
         req = 2 if (rng.random() < 0.25 and nsync < 2) else 1
         nsync += req == 2
         customers.append([x, rng.randint(0, 4), tws, twe, rng.randint(0, 3), req])
-    case = {"customers": customers, "vehicles": rng.randint(2, 3), "capacity": rng.choice([5, 8, 100]), "seed": rng.randint(0, 10 ** 6), "mode": mode}
+    case = {"customers": customers, "vehicles": rng.choice([1, 2, 2, 3, 3, 4]), "capacity": rng.choice([5, 8, 100]), "seed": rng.randint(0, 10 ** 6), "mode": mode}
     if mode == "sequence":
         names = list(OPS)
         seq = ["greedy_insertion"]
